@@ -3,3 +3,10 @@ import LruMem.Model.Basic
 import LruMem.Model.Events
 import LruMem.Model.Abs
 import LruMem.Model.Step
+import LruMem.Proofs.Lists
+import LruMem.Proofs.Eject
+import LruMem.Proofs.Hashbrown
+import LruMem.Proofs.Inv
+import LruMem.Proofs.Reach
+import LruMem.Props.C01
+import LruMem.Props.C02
